@@ -62,3 +62,11 @@ pub proof fn axiom_usize_try_from_usize()
         forall|n: usize| (#[trigger] <usize as vstd::std_specs::convert::TryFromSpec<usize>>::try_from_spec(n)).unwrap() == n,
 {
 }
+
+/// S-07  usize::div_ceil
+pub assume_specification[ usize::div_ceil ](a: usize, b: usize) -> (r: usize)
+    requires
+        b > 0,
+    ensures
+        r == (a + b - 1) / (b as int),
+;
